@@ -207,7 +207,7 @@ func (g *gen) chance(p int) bool {
 }
 
 func (g *gen) target(from int) (common.Address, string) {
-	if (g.o.Focus == "etx" || g.o.Focus == "revert") && g.chance(10) {
+	if (g.o.Focus == "etx" && g.chance(22)) || (g.o.Focus == "revert" && g.chance(10)) || (g.o.Focus == "lockup" && g.chance(60)) {
 		return Lockup, "Lockup"
 	}
 	switch x := g.pick(100); {
@@ -379,6 +379,10 @@ func (g *gen) action(a *Asm, idx int) Action {
 				val = big.NewInt(0)
 			}
 		}
+		if to.Equal(Lockup) && inSz == 60 && op == vm.CALL && g.chance(65) {
+			// the same unwrap once more before the recorded one: the second starts from the balance the first left
+			a.Push(0).Push(0).Push(60).Push(0).Push(0).PushAddr(Lockup).Push(gas).Op(vm.CALL, vm.POP)
+		}
 		a.Push(outSz).Push(outOff).Push(inSz).Push(inOff)
 		if op == vm.CALL || op == vm.CALLCODE {
 			a.PushBig(val)
@@ -522,7 +526,11 @@ func (g *gen) action(a *Asm, idx int) Action {
 }
 
 func (g *gen) lockupInput(idx int) []byte {
-	if g.chance(70) && len(g.c.Lockups) > 0 {
+	claimP := 70
+	if g.o.Focus == "etx" || g.o.Focus == "lockup" {
+		claimP = 40 // more unwraps in the send-focused workloads
+	}
+	if g.chance(claimP) && len(g.c.Lockups) > 0 {
 		// claim: miner(20) to(20) lockupByte(1) epoch(4) etxGasLimit(8) = 53 bytes
 		l := g.c.Lockups[g.pick(len(g.c.Lockups))]
 		for _, own := range g.c.Lockups {
